@@ -508,6 +508,26 @@ func (s *Sim) execOp(i int) {
 		}
 		b := s.baseFor(op.Cli)
 		err = rh.Retry(ctx, b)
+	case "donewatch":
+		// an application goroutine that waits for the end of the connection and
+		// looks at Err() the moment Done() is closed
+		b := s.baseFor(op.Cli)
+		for it := 0; it < op.Repeat; it++ {
+			ch := b.Done()
+			if ch == nil {
+				runtimeGosched()
+				continue
+			}
+			select {
+			case <-ch:
+				if e := b.Err(); e == nil {
+					s.log(Rec{Kind: "doneerrnil", Conn: op.Cli + 1})
+				}
+				it = op.Repeat
+			default:
+				runtimeGosched()
+			}
+		}
 	case "probe":
 		// read-only API surface, from any goroutine at any time
 		for it := 0; it < op.Repeat; it++ {
@@ -590,6 +610,20 @@ func (s *Sim) handler(h int) mqtt.Handler {
 		}
 		if slow > 0 && !s.race {
 			time.Sleep(time.Duration(slow) * time.Microsecond)
+		}
+		if h == 7 {
+			// keeps its message and goes on reading it on a goroutine of its own
+			go func() {
+				n := 0
+				for i := 0; i < 4; i++ {
+					for _, b := range m.Payload {
+						n += int(b)
+					}
+					n += len(m.Topic)
+					runtimeGosched()
+				}
+				_ = n
+			}()
 		}
 		if h == 5 && s.retry != nil && !s.race {
 			// replaces itself from inside the callback
